@@ -150,6 +150,10 @@ func (inj *injector) callInvoke(f interface{}, t reflect.Type, numIn int) ([]ref
 			in[i] = val
 		}
 	}
+	if t.IsVariadic() {
+		// The final parameter has been resolved as a whole slice, like any other parameter.
+		return reflect.ValueOf(f).CallSlice(in), nil
+	}
 	return reflect.ValueOf(f).Call(in), nil
 }
 
